@@ -3,8 +3,31 @@
 
 use unimock::*;
 
-#[derive(Clone, Debug, Default, PartialEq)]
+#[derive(Debug, Default, PartialEq)]
 pub struct Val(pub String);
+
+/// user code that panics: cloning a value whose tag is >= 1000
+impl Clone for Val {
+    fn clone(&self) -> Self {
+        if let Some(n) = self.0.strip_prefix('r').and_then(|t| t.parse::<u32>().ok()) {
+            if n >= 1000 {
+                panic!("user:clone");
+            }
+        }
+        Val(self.0.clone())
+    }
+}
+
+/// 1: the next real function panics; 2: the next default body panics
+pub static ARMED_GLOBAL: std::sync::atomic::AtomicU32 = std::sync::atomic::AtomicU32::new(0);
+
+fn user_panic_if_armed(which: u32, what: &str) {
+    use std::sync::atomic::Ordering::SeqCst;
+    if ARMED_GLOBAL.load(SeqCst) == which {
+        ARMED_GLOBAL.store(0, SeqCst);
+        panic!("{what}");
+    }
+}
 
 /// not Clone
 #[derive(Debug, PartialEq)]
@@ -22,9 +45,11 @@ pub trait T {
         7
     }
     fn m2(&self, a: u8) -> Val {
+        user_panic_if_armed(2, "user:dflt");
         Val(format!("dflt2({a})"))
     }
     fn m3(&self, a: u8) -> Val {
+        user_panic_if_armed(2, "user:dflt");
         Val(format!("dflt3({a})"))
     }
     fn m4(&self, a: u8) -> Uniq;
@@ -32,12 +57,15 @@ pub trait T {
 }
 
 pub fn real0(_: &impl T, a: u8) -> Val {
+    user_panic_if_armed(1, "user:real");
     Val(format!("real0({a})"))
 }
 pub fn real2(_: &impl T, a: u8) -> Val {
+    user_panic_if_armed(1, "user:real");
     Val(format!("real2({a})"))
 }
 pub fn real4(_: &impl T, a: u8) -> Uniq {
+    user_panic_if_armed(1, "user:real");
     Uniq(format!("real4({a})"))
 }
 
